@@ -57,17 +57,9 @@ class Apa(threading.Thread):
 CLAUSE = {"RWithin1ns": "within-1ns", "RNeverLater": "never-later", "ROrder": "order", "RAgg": "sweep"}
 
 
-def cls_of(inv, r):
-    """Structural class of a record with respect to a monitor invariant: which side of
-    an era boundary the time (and, for order, its predecessor) lies relative to t0."""
-    if inv == "ROrder":
-        return (r.get("k"), r.get("pcross"), r.get("cross"))
-    if inv == "RAgg":
-        return (r.get("k"), r.get("pcross"), r.get("cross"))
-    return (r.get("k"), r.get("cross"))
-
-
 def sig_of(inv, bad):
+    """Structural signature: clause, observed composition, and on which side of an era
+    boundary the time (for order: and its predecessor) lies relative to t0."""
     clause = CLAUSE.get(inv, inv)
     if inv in ("ROrder", "RAgg"):
         return "C04 %s TimeFromTime64(Time64FromTime(t),t0) era-cross(prev,t)=(%+d,%+d)" % (
@@ -192,43 +184,58 @@ def run(ctx):
             if any(e[k] != c[k] for k in ("s32", "frac", "nsec", "bf", "br")):
                 raise vlib.Inconclusive("driver evaluator differs from TLC's table: %s vs %s" % (e, c))
 
-    # 4. code -> spec: the monitor decides; after a violation the records of the same
-    #    class are set aside and the rest is validated again (distinct signatures)
-    nval, nviol = 0, 0
-    chunk = 100000
+    # 4. code -> spec: the monitor decides.  If TLC rejects a chunk it is run once more
+    #    with -continue so that TLC names every violating record; they are reported once
+    #    per (clause, structural class).
+    nval, nbad = 0, 0
+    chunk = 150000
     conforms = {"NtpTimeTrace_strict.cfg": True, "NtpTimeTrace_strictrep.cfg": True}
     drift_ex = {}
+    found = {}      # signature -> [count, first record, invariant]
     for i in range(0, len(recs), chunk):
         part = recs[i:i + chunk]
-        for _round in range(12):
-            if not part:
-                break
-            pp = ctx.path("chunk.ndjson")
-            vlib.write_ndjson(pp, part)
-            ok, l, inv, tout = ctx.validate("NtpTimeTrace", "NtpTimeTrace_mon.cfg", pp)
-            if ok:
-                nval += len(part)
-                break
-            bad = part[l - 1] if l else None
-            if inv == "RConsistent" or bad is None:
-                raise vlib.Inconclusive("harness fault: inconsistent record %s (%s)" % (bad, inv))
-            nviol += 1
-            real = bad.get("real")
-            if bad["k"] == "rt":
-                what = ("real ntp.TimeFromTime64(ntp.Time64FromTime(t), t0) violates %s: t0=%s.%09d t=%s.%09d (unix s.ns) "
-                        "came back %s ns %s (digits back=%s, t=%s relative to t0's second)" % (
-                            inv, real[0], int(real[1]), real[2], int(real[3]),
-                            ">= 10^9" if abs(bad["d"]) >= 10 ** 9 else abs(bad["d"]),
-                            "late" if bad["d"] > 0 else "early", bad["b"], bad["t"]))
-            else:
-                what = ("real round trip violates %s in the sweep of second t=%s for t0=%s (sub-second %d..%d): "
-                        "min/max back-t = %d/%d ns, inversions=%d, first offending ns=%d" % (
-                            inv, real[1], real[0], bad["n0"], bad["n1"], bad["mind"], bad["maxd"],
-                            bad["inversions"], bad["first_bad"]))
-            ctx.violation(sig_of(inv, bad), what, bad)
-            part = [r for r in part if cls_of(inv, r) != cls_of(inv, bad)]
+        pp = ctx.path("chunk.ndjson")
+        vlib.write_ndjson(pp, part)
+        ok, l, inv, tout = ctx.validate("NtpTimeTrace", "NtpTimeTrace_mon.cfg", pp)
+        if ok:
+            nval += len(part)
+            continue
+        r = ctx.tlc("NtpTimeTrace", "NtpTimeTrace_mon.cfg", workers=4, timeout=900, files={"trace.ndjson": pp},
+                    allow_violation=True, extra=("-continue",), tag="trace:mon-continue")
+        hits = []
+        for blk in re.split(r"^Error: Invariant (?=\S+ is violated)", r["out"], flags=re.M)[1:]:
+            ls = re.findall(r"^l = (\d+)\s*$", blk, re.M)
+            if ls:
+                hits.append((blk.split()[0], int(ls[-1])))
+        if not hits or any(not (1 <= l_ <= len(part)) for _, l_ in hits):
+            raise vlib.Inconclusive("cannot read TLC's list of violating records (first: %s at %s)" % (inv, l))
+        badset = set()
+        for inv_, l_ in hits:
+            bad = part[l_ - 1]
+            if inv_ == "RConsistent":
+                raise vlib.Inconclusive("harness fault: inconsistent record %s" % bad)
+            badset.add(l_)
+            e = found.setdefault(sig_of(inv_, bad), [0, bad, inv_, i + l_])
+            e[0] += 1
+            if i + l_ < e[3]:       # deterministic example: the earliest record
+                e[1], e[2], e[3] = bad, inv_, i + l_
+        nbad += len(badset)
+        nval += len(part) - len(badset)
+    for sig, (cnt, bad, inv, _pos) in sorted(found.items()):
+        real = bad.get("real")
+        if bad["k"] == "rt":
+            what = ("real ntp.TimeFromTime64(ntp.Time64FromTime(t), t0) violates %s on %d records, e.g. t0=%s.%09d "
+                    "t=%s.%09d (unix s.ns) came back %s ns %s (digits back=%s, t=%s, prev=%s, back(prev)=%s relative "
+                    "to t0's second)" % (
+                        inv, cnt, real[0], int(real[1]), real[2], int(real[3]),
+                        ">= 10^9" if abs(bad["d"]) >= 10 ** 9 else abs(bad["d"]),
+                        "late" if bad["d"] > 0 else "early", bad["b"], bad["t"], bad["pt"], bad["pb"]))
         else:
-            raise vlib.Inconclusive("more than 12 distinct violation classes in one chunk; monitor output unusable")
+            what = ("real round trip violates %s in %d sweep blocks, e.g. second t=%s for t0=%s (sub-second %d..%d): "
+                    "min/max back-t = %d/%d ns, inversions=%d, first offending ns=%d" % (
+                        inv, cnt, real[1], real[0], bad["n0"], bad["n1"], bad["mind"], bad["maxd"],
+                        bad["inversions"], bad["first_bad"]))
+        ctx.violation(sig, what, bad)
     # strict: which setting of the switch describes the code (forward-only first; the
     # repaired transcription is consulted, on all records, only if that one fails)
     for cfg in ("NtpTimeTrace_strict.cfg", "NtpTimeTrace_strictrep.cfg"):
@@ -258,7 +265,10 @@ def run(ctx):
     swept = sum(a["count"] for a in aggs)
     judged_cross = len([r for r in rts if r["cross"] != 0 and r["edge"] != "out"])
     ctx.log("records: %d round trips (%d across an era boundary inside the window), %d sweep blocks = %d sub-second values; "
-            "%d validated by the monitor, %d violation classes" % (len(rts), judged_cross, len(aggs), swept, nval, nviol))
+            "%d accepted by the monitor, %d rejected in %d classes" % (len(rts), judged_cross, len(aggs), swept, nval, nbad, len(found)))
+    if judged_cross < 1000 or not aggs or len(rts) < 3 * ntlc // 2:
+        raise vlib.Inconclusive("driver coverage lost: %d records, %d across an era boundary, %d sweep blocks" % (
+            len(rts), judged_cross, len(aggs)))
     ctx.cov.update(
         evaluations=len(rts) + swept,
         distinct_nontrivial=len({tuple(r["real"]) for r in rts if r["edge"] != "out"}),
@@ -270,7 +280,9 @@ def run(ctx):
              "(thorough: all 10^9 of 10 (reference, second) combinations); distinct = distinct real (t0, t) inside the window",
         traces_validated_against_impl=nval, exhaustive=True,
         sweep_values=swept, across_era_in_window=judged_cross,
-        samples=rts[:2] + rts[len(rts) // 2:len(rts) // 2 + 2] + aggs[:1])
+        samples=[r for r in rts if r["cross"] == -1 and r["edge"] != "out"][:2]
+                + [r for r in rts if r["cross"] == 1 and r["edge"] != "out"][:1]
+                + [r for r in rts if r["src"] != "tlc"][:2] + rts[len(rts) // 2:len(rts) // 2 + 1] + aggs[:1])
     ctx.assumptions += [
         "TLC decides NtpTime.tla at scaled constants (1000, 2^12, 2^6, -33); the same formulas at the real constants "
         "(10^9, 2^32, 2^32, -2208988800) are decided by Apalache when available (specification level only)",
